@@ -1,1 +1,16 @@
-// harnesses for src/scheduler (child module, cfg(kani) only)
+// child module of src/scheduler.rs (cfg(kani) only)
+use super::*;
+
+/// MIRROR of the closure `timer_event_handler` in `init_scheduler` (src/scheduler.rs): the closure
+/// lives inside a function that spawns OS threads and cannot be called.  The runner compares the
+/// source text of the original with the snapshot this mirror was written from (INDEX.json
+/// "mirrors"); if it differs, harnesses that use the mirror are inconclusive, never a pass.
+pub fn timer_event_handler(c: Arc<AtomicOption<CoroutineImpl>>) {
+    // just re-push the co to the visit list
+    if let Some(mut co) = c.take() {
+        // set the timeout result for the coroutine
+        set_co_para(&mut co, io::Error::new(io::ErrorKind::TimedOut, "timeout"));
+        // s.schedule_global(c);
+        run_coroutine(co);
+    }
+}
